@@ -694,6 +694,12 @@ func (e *Engine) havocLoop(fr *Frame, st *State, hdr *ssa.BasicBlock, c *Contrac
 						ghosts[m] = true
 					case m == "heap":
 						all = true
+					case m == "globals":
+						for k := range e.hsorts {
+							if strings.HasPrefix(k, "G|") && !e.isSentinelKey(k) {
+								keys[k] = true
+							}
+						}
 					case strings.HasPrefix(m, "*"):
 						// out-parameter cell: find the pointee sort from the signature
 						sig := cc.Signature()
@@ -750,6 +756,12 @@ func (e *Engine) havocLoop(fr *Frame, st *State, hdr *ssa.BasicBlock, c *Contrac
 			ghosts[m] = true
 		} else if m == "heap" {
 			all = true
+		} else if m == "globals" {
+			for k := range e.hsorts {
+				if strings.HasPrefix(k, "G|") && !e.isSentinelKey(k) {
+					keys[k] = true
+				}
+			}
 		} else if strings.HasPrefix(m, "key:") {
 			keys[m[4:]] = true
 		}
